@@ -288,15 +288,45 @@ Qed.
 Lemma last_nonempty_snoc A d e : d <> [] -> last_nonempty (A ++ [(d, e)]).
 Proof. intro H. unfold last_nonempty. rewrite rev_app_distr. cbn. exact H. Qed.
 
-Lemma small_put_string_buf enc buf s : lenN (upto_nul s) + 9 <= MaxFrameSize ->
-  w_buf (put_string enc {| w_buf := buf; w_out := [] |} s) <> [].
+Lemma firstn_nonempty (M : N) (b : byte) r : M <> 0 -> firstn (N.to_nat M) (b :: r) <> [].
+Proof. intro H. destruct (N.to_nat M) eqn:E; [lia|]. cbn [firstn]. discriminate. Qed.
+
+Lemma MaxFrameSize_nz : MaxFrameSize <> 0.
+Proof. vm_compute. discriminate. Qed.
+
+Lemma put_chunks_buf fuel : forall w data, w_buf w <> [] -> w_buf (put_chunks fuel w data) <> [].
 Proof.
-  intro H. unfold put_string. cbv zeta.
-  assert (L : lenN (upto_nul s ++ [x00]) = lenN (upto_nul s) + 1) by (rewrite lenN_app; reflexivity).
-  rewrite L.
-  replace (MaxFrameSize <? (if enc then lenN (upto_nul s) + 1 + 8 else lenN (upto_nul s) + 1)) with false
-    by (destruct enc; lia).
-  unfold w_append. cbn [w_buf]. intro C. apply app_eq_nil in C as [_ C]. apply app_eq_nil in C as [_ C]. discriminate.
+  induction fuel as [|f IH]; intros w data H; cbn [put_chunks]; [exact H|].
+  destruct data as [|b r]; [exact H|]. apply IH.
+  unfold w_append. cbn [w_buf]. intro C. apply app_eq_nil in C as [_ C].
+  exact (firstn_nonempty MaxFrameSize b r MaxFrameSize_nz C).
+Qed.
+
+Lemma put_chunks_first f w data : data <> [] -> w_buf (put_chunks (S f) w data) <> [].
+Proof.
+  intro H. cbn [put_chunks]. destruct data as [|b r]; [congruence|]. apply put_chunks_buf.
+  unfold w_append. cbn [w_buf]. intro C. apply app_eq_nil in C as [_ C].
+  exact (firstn_nonempty MaxFrameSize b r MaxFrameSize_nz C).
+Qed.
+
+Lemma put_bytes_buf w data : data <> [] -> w_buf (put_bytes w data) <> [].
+Proof.
+  intro H. unfold put_bytes. cbv zeta.
+  destruct (lenN data =? 0) eqn:Z.
+  { destruct data; [congruence|]. rewrite lenN_cons in Z. lia. }
+  destruct (MaxFrameSize <? lenN data).
+  - apply put_chunks_first. exact H.
+  - unfold w_append. cbn [w_buf]. intro C. apply app_eq_nil in C as [_ C]. contradiction.
+Qed.
+
+(* after PutString the buffer is never empty: the frame a following flush writes has a payload *)
+Lemma small_put_string_buf enc buf s : w_buf (put_string enc {| w_buf := buf; w_out := [] |} s) <> [].
+Proof.
+  unfold put_string. cbv zeta.
+  assert (D : upto_nul s ++ [x00] <> []) by (intro C; apply app_eq_nil in C as [_ C]; discriminate).
+  destruct (MaxFrameSize <? _).
+  - apply put_bytes_buf. exact D.
+  - unfold w_append. cbn [w_buf]. intro C. apply app_eq_nil in C as [_ C]. contradiction.
 Qed.
 
 Lemma put_string_shape st s :
@@ -312,11 +342,10 @@ Lemma flush_shape st :
 Proof. repeat split. Qed.
 
 Lemma secret_step st rs pre pubs cur e : SInv st rs pre pubs cur ->
-  lenN (upto_nul e) + 9 <= MaxFrameSize ->
   exists C S, SInv (put_secret_expr st e)
                    (rs ++ [{| rd_pre := pre; rd_pubs := pubs; rd_sec := e; rd_C := C; rd_S := S |}]) [] [] [].
 Proof.
-  intros [O N Bt K E Ok] Hsmall. unfold put_secret_expr.
+  intros [O N Bt K E Ok]. unfold put_secret_expr.
   destruct (put_string_shape st secret_marker) as (O1 & B1 & K1 & E1 & V1).
   set (st1 := s_put_string st secret_marker) in *.
   destruct (flush_shape st1) as (O2 & B2 & K2 & E2 & V2).
@@ -357,8 +386,8 @@ Proof.
     + unfold noeom in *. apply Forall_app. split; [exact N|]. apply Forall_app. split; [exact N1|repeat constructor].
     + unfold noeom in *. apply Forall_app. split; [exact N2|repeat constructor].
     + rewrite app_assoc. apply last_nonempty_snoc.
-      apply (small_put_string_buf false (s_buf st) secret_marker). vm_compute. discriminate.
-    + apply last_nonempty_snoc. apply (small_put_string_buf true [] e Hsmall).
+      apply (small_put_string_buf false (s_buf st) secret_marker).
+    + apply last_nonempty_snoc. apply (small_put_string_buf true [] e).
     + rewrite !cat_app. unfold cat at 3. cbn [map concat fst]. rewrite app_nil_r.
       rewrite C1, app_assoc, Bt, <- app_assoc. reflexivity.
     + rewrite cat_app. unfold cat at 2. cbn [map concat fst]. rewrite app_nil_r. exact C2.
@@ -374,20 +403,18 @@ Definition pres_ok (first : bytes) (rs : list round) (pre : bytes) : Prop :=
   end.
 
 Definition secret_attr' (c : config) (a : attr) : bool := is_private_any (fst a) || in_list (fst a) (c_enc_attrs c).
-Definition secrets_small (c : config) (l : list attr) : Prop :=
-  Forall (fun a => secret_attr' c a = true -> lenN (upto_nul (expr_text a)) + 9 <= MaxFrameSize) l.
 
 Lemma fold_rounds c first l : forall st rs pre pubs cur,
-  SInv st rs pre pubs cur -> pres_ok first rs pre -> secrets_small c l ->
+  SInv st rs pre pubs cur -> pres_ok first rs pre ->
   exists rs' pre' pubs' cur', SInv (fold_left (put_one c true) l st) rs' pre' pubs' cur' /\ pres_ok first rs' pre' /\
                              items_of rs' pubs' = items_of rs pubs ++ map expr_text l.
 Proof.
-  induction l as [|a l IH]; intros st rs pre pubs cur HI HP HS; cbn [fold_left map].
+  induction l as [|a l IH]; intros st rs pre pubs cur HI HP; cbn [fold_left map].
   - exists rs, pre, pubs, cur. rewrite app_nil_r. auto.
-  - inversion HS as [|? ? Ha HS']; subst. unfold put_one at 2. cbn [andb]. fold (secret_attr' c a).
+  - unfold put_one at 2. cbn [andb]. fold (secret_attr' c a).
     destruct (secret_attr' c a) eqn:Sa.
-    + destruct (secret_step st rs pre pubs cur (expr_text a) HI (Ha eq_refl)) as (C & S & HI').
-      destruct (IH _ _ _ _ _ HI') as (rs' & pre' & pubs' & cur' & H1 & H2 & H3); [|exact HS'|].
+    + destruct (secret_step st rs pre pubs cur (expr_text a) HI) as (C & S & HI').
+      destruct (IH _ _ _ _ _ HI') as (rs' & pre' & pubs' & cur' & H1 & H2 & H3).
       { destruct rs as [|r0 rs0]; cbn [app pres_ok] in *.
         - cbn [rd_pre]. auto.
         - destruct HP as (P1 & P2 & P3). repeat split; auto. apply Forall_app. split; [exact P2|].
@@ -396,7 +423,7 @@ Proof.
       rewrite H3. unfold items_of. rewrite map_app, concat_app. cbn [map concat rd_pubs rd_sec].
       rewrite !app_nil_r, <- !app_assoc. reflexivity.
     + destruct (plain_step st rs pre pubs cur (expr_text a) HI) as (cur1 & HI').
-      destruct (IH _ _ _ _ _ HI' HP HS') as (rs' & pre' & pubs' & cur' & H1 & H2 & H3).
+      destruct (IH _ _ _ _ _ HI' HP) as (rs' & pre' & pubs' & cur' & H1 & H2 & H3).
       exists rs', pre', pubs', cur'. split; [exact H1|]. split; [exact H2|].
       rewrite H3. unfold items_of. rewrite <- !app_assoc. reflexivity.
 Qed.
@@ -408,14 +435,14 @@ Definition ad_count (c : config) (a : ad) : Z :=
 
 (* the frames of a whole ad on a keyed, non-encrypting stream *)
 Lemma put_ad_rounds c a :
-  opt_no_types (c_opts c) = false -> secrets_small c (attrs_to_send c (ad_attrs a)) ->
+  opt_no_types (c_opts c) = false ->
   exists rs pre pubs cur buf,
     s_frames (s_finish (put_ad c (sstate_init true false) a)) = flat rs ++ tagf false (cur ++ [(buf, true)]) /\
     noeom cur /\ cat cur ++ buf = pre ++ concat (map cstr (pubs ++ [ad_mytype a; ad_targettype a])) /\ Forall round_ok rs /\
     pres_ok (enc_int (ad_count c a)) rs pre /\
     items_of rs pubs = ad_exprs c a.
 Proof.
-  intros Hnt Hs. unfold put_ad. cbv zeta. rewrite Hnt. fold (ad_count c a).
+  intros Hnt. unfold put_ad. cbv zeta. rewrite Hnt. fold (ad_count c a).
   set (st1 := s_put_int (sstate_init true false) (ad_count c a)).
   assert (I1 : SInv st1 [] (enc_int (ad_count c a)) [] []).
   { constructor; try reflexivity; constructor. }
@@ -427,7 +454,7 @@ Proof.
   destruct I2 as (cur2 & I2).
   assert (F2 : s_key st2 = true /\ s_enc st2 = false) by (destruct I2; auto).
   destruct F2 as [K2 E2]. rewrite K2, E2. cbn [secret_is_noop negb orb].
-  destruct (fold_rounds c (enc_int (ad_count c a)) _ st2 [] _ _ cur2 I2 eq_refl Hs) as (rs & pre & pubs & cur & I3 & P3 & It3).
+  destruct (fold_rounds c (enc_int (ad_count c a)) (attrs_to_send c (ad_attrs a)) st2 [] _ _ cur2 I2 eq_refl) as (rs & pre & pubs & cur & I3 & P3 & It3).
   destruct (plain_step _ _ _ _ _ (ad_mytype a) I3) as (cur4 & I4).
   destruct (plain_step _ _ _ _ _ (ad_targettype a) I4) as (cur5 & I5).
   destruct I5 as [O N Bt K E Ok].
@@ -675,7 +702,6 @@ Qed.
 (* keyed, non-encrypting stream: GetClassAdRaw on the sender's frames returns the sender's items *)
 Theorem marker_roundtrip c a :
   opt_no_types (c_opts c) = false ->
-  secrets_small c (attrs_to_send c (ad_attrs a)) ->
   Forall (valid_str true) (ad_exprs c a) ->
   nul_free (ad_mytype a) -> nul_free (ad_targettype a) -> type_ok (ad_mytype a) -> type_ok (ad_targettype a) ->
   (Z.of_nat (length (ad_attrs a)) < 2 ^ 62)%Z ->
@@ -683,8 +709,8 @@ Theorem marker_roundtrip c a :
     get_ad_raw (treader_of true false (s_frames (s_finish (put_ad c (sstate_init true false) a)))) =
       (t1, MOk (ad_exprs c a, ad_mytype a, ad_targettype a)).
 Proof.
-  intros Hnt Hsm Hv Nmy Ntg Tmy Ttg Hl.
-  destruct (put_ad_rounds c a Hnt Hsm) as (rs & pre & pubs & cur & buf & Fr & Ncur & Cb & Ok & Pr & It).
+  intros Hnt Hv Nmy Ntg Tmy Ttg Hl.
+  destruct (put_ad_rounds c a Hnt) as (rs & pre & pubs & cur & buf & Fr & Ncur & Cb & Ok & Pr & It).
   rewrite Fr. set (fin := tagf false (cur ++ [(buf, true)])).
   pose proof (bd_init (flat rs ++ fin)) as B0. set (t0 := treader_of true false (flat rs ++ fin)) in *.
   pose proof (exprs_not_marker c a) as NMall. rewrite <- It in NMall, Hv.
